@@ -102,7 +102,15 @@ func genValue(r *zsimrt.Rand) string {
 	case 8:
 		return pick(r, gRegexp)
 	}
-	return "(" + pick(r, gWords) + " OR " + pick(r, gWords) + " OR " + pick(r, gNums) + ")"
+	// value lists: 2-6 elements drawn with replacement from a tiny set, so that
+	// duplicates and unsorted lists are the norm rather than the exception
+	set := []string{pick(r, gWords), pick(r, gWords), pick(r, gNums)}
+	n := 2 + r.Intn(5)
+	out := "(" + set[r.Intn(3)]
+	for i := 1; i < n; i++ {
+		out += " OR " + set[r.Intn(3)]
+	}
+	return out + ")"
 }
 
 func genBound(r *zsimrt.Rand) string {
